@@ -403,6 +403,11 @@ def gen(rng, tier):
         elif sp == "pole":
             v = [0.0, 0.0, rng.choice([3.0, -0.5])]
         yield {"fn": "cartesianToSpherical", "args": v, "wrap360": rng.random() < 0.5, "batch": batch(3), "special": sp}
+        if rng.random() < 0.3:
+            # next to a pole: the latitude must keep its absolute accuracy there (atan2 does, asin of a ratio close to 1 does not)
+            e_ = 10.0 ** rng.uniform(-7, -3)
+            yield {"fn": "cartesianToSpherical", "args": [rng.choice([-1, 1]) * e_, rng.choice([-1, 1]) * e_ * rng.uniform(0.1, 1), rng.choice([-1.0, 1.0])],
+                   "wrap360": rng.random() < 0.5, "batch": batch(3), "special": "near_pole"}
         if rng.random() < 0.15:
             # a hair below the positive x axis: the longitude is a tiny negative angle before it is wrapped
             yield {"fn": "cartesianToSpherical", "args": [rng.uniform(0.5, 5), -10.0 ** rng.uniform(-300, -17), rng.uniform(-2, 2)], "wrap360": True,
